@@ -25,29 +25,35 @@
      Loop = "v0"                             : NoLoss violated (the defect 4a07be4 repaired: echo + late reply in one read)
      DataLines = TRUE                        : OwnReply violated (known finding C02:driver:1.1:data-line-starts-with-##) *)
 EXTENDS Naturals, Sequences, FiniteSets, TLC
-CONSTANTS Loop, DataLines, Echo, N, Policies, PromptEcho
-VARIABLES stream, b, store, next, call, pol, got, owed, asked
-vars == <<stream, b, store, next, call, pol, got, owed, asked>>
+CONSTANTS Loop, DataLines, Echo, N, Policies, PromptEcho, Notifs
+VARIABLES stream, b, store, next, call, pol, got, owed, asked, nn
+vars == <<stream, b, store, next, call, pol, got, owed, asked, nn>>
 
 M(i) == IF DataLines THEN << <<"hdr", i>>, <<"dl", i>>, <<"body", i>>, <<"end", i>> >>
                      ELSE << <<"hdr", i>>, <<"body", i>>, <<"end", i>> >>
 E(i) == << <<"rpc", i>>, <<"eend", i>> >>
+\* notification k of the (single) subscription: no message-id, a subscription-id in its head; numbered 20 + k as a server message
+NM(k) == << <<"nhdr", 20 + k>>, <<"nbody", 20 + k>>, <<"nend", 20 + k>> >>
 None == <<>>
 TimedOut == << <<"timeout", 0>> >>
 
-Looks(tok) == tok[1] \in {"end", "eend", "dl"}
+Looks(tok) == tok[1] \in {"end", "eend", "dl", "nend"}
 HasDelim(s) == \E k \in 1..Len(s) : Looks(s[k])
 HasRpc(s) == \E k \in 1..Len(s) : s[k][1] = "rpc"
 FirstDelim(s) == CHOOSE k \in 1..Len(s) : Looks(s[k]) /\ \A j \in 1..(k-1) : ~Looks(s[j])
 FirstId(s) == IF \E k \in 1..Len(s) : s[k][1] = "hdr"
               THEN s[CHOOSE k \in 1..Len(s) : s[k][1] = "hdr" /\ \A j \in 1..(k-1) : s[j][1] # "hdr"][2] ELSE 0
-ServerMsgs(s) == {s[k][2] : k \in {j \in 1..Len(s) : s[j][1] \in {"hdr", "body", "dl", "end"}}}
+HasNotif(s) == \E k \in 1..Len(s) : s[k][1] = "nhdr"
+ServerMsgs(s) == {s[k][2] : k \in {j \in 1..Len(s) : s[j][1] \in {"hdr", "body", "dl", "end", "nhdr", "nbody", "nend"}}}
 OkRead(s) == Cardinality(ServerMsgs(s)) <= 1
 
-\* the filing branch; returns <<buffer, store>>
+\* the filing branch; returns <<buffer, store>>.  store[i], i > 0: the message filed under message-id i; store[0]: the
+\* sequence of buffers filed as messages of the subscription (a buffer can be both)
 Examine(buf, st) ==
   IF HasDelim(buf) /\ ~HasRpc(buf)
-  THEN IF FirstId(buf) # 0 THEN << <<>>, [st EXCEPT ![FirstId(buf)] = buf] >> ELSE << <<>>, st >>
+  THEN LET st1 == IF FirstId(buf) # 0 THEN [st EXCEPT ![FirstId(buf)] = buf] ELSE st
+           st2 == IF HasNotif(buf) THEN [st1 EXCEPT ![0] = Append(@, buf)] ELSE st1
+       IN << <<>>, st2 >>
   ELSE <<buf, st>>
 \* one whole iteration on buffer nb
 RECURSIVE DropAll(_)
@@ -61,17 +67,17 @@ IterateV(ver, nb, st) ==
   ELSE Examine(nb, st)
 Iterate(nb, st) == IterateV(Loop, nb, st)
 
-Init == /\ stream = <<>> /\ b = <<>> /\ store = [i \in 1..N |-> <<>>] /\ next = 1 /\ call = 0
+Init == /\ stream = <<>> /\ b = <<>> /\ store = [i \in 0..N |-> <<>>] /\ next = 1 /\ call = 0 /\ nn = 0
         /\ pol \in [1..N -> Policies] /\ got = [i \in 1..N |-> None] /\ owed = {} /\ asked = {}
 
 \* the caller: build request i, write it, then poll the store for i
 Send == /\ call = 0 /\ next <= N
         /\ call' = next /\ next' = next + 1 /\ asked' = asked \cup {next}
         /\ stream' = IF Echo THEN stream \o E(next) ELSE stream
-        /\ UNCHANGED <<b, store, pol, got, owed>>
+        /\ UNCHANGED <<b, store, pol, got, owed, nn>>
 Fetch == /\ call # 0 /\ store[call] # <<>>
          /\ got' = [got EXCEPT ![call] = store[call]] /\ store' = [store EXCEPT ![call] = <<>>] /\ call' = 0
-         /\ UNCHANGED <<stream, b, next, pol, owed, asked>>
+         /\ UNCHANGED <<stream, b, next, pol, owed, asked, nn>>
 \* PromptEcho: the echo of a request reaches the client before that call's timer expires (what a pty does unless the
 \* network stalls for longer than the operation timeout)
 EchoRead(i) == \A k \in 1..Len(stream) : stream[k] \notin {<<"rpc", i>>, <<"eend", i>>}
@@ -79,21 +85,24 @@ Timeout == /\ call # 0 /\ pol[call] # "now" /\ store[call] = <<>> /\ (PromptEcho
            \* time-scale separation: a timeout is hundreds of loop iterations long, so the loop has examined all it has
            /\ Iterate(b, store) = <<b, store>>
            /\ got' = [got EXCEPT ![call] = TimedOut] /\ call' = 0
-           /\ UNCHANGED <<stream, b, store, next, pol, owed, asked>>
+           /\ UNCHANGED <<stream, b, store, next, pol, owed, asked, nn>>
 \* the server: reply to a request it has received, now or only after the caller gave up
 Reply(i) == /\ i \in asked /\ i \notin owed /\ pol[i] # "never"
             /\ (pol[i] = "late" => got[i] = TimedOut)
             /\ owed' = owed \cup {i} /\ stream' = stream \o M(i)
-            /\ UNCHANGED <<b, store, next, call, pol, got, asked>>
+            /\ UNCHANGED <<b, store, next, call, pol, got, asked, nn>>
+\* the server: an asynchronous notification of the subscription, at any time
+Notify == /\ nn < Notifs /\ nn' = nn + 1 /\ stream' = stream \o NM(nn + 1)
+          /\ UNCHANGED <<b, store, next, call, pol, got, owed, asked>>
 \* the read loop
 ReadN(n) == /\ n \in 0..Len(stream)
             /\ OkRead(SubSeq(stream, 1, n))
             /\ LET r == Iterate(b \o SubSeq(stream, 1, n), store) IN
                /\ b' = r[1] /\ store' = r[2] /\ (n = 0 => r # <<b, store>>)
             /\ stream' = SubSeq(stream, n + 1, Len(stream))
-            /\ UNCHANGED <<next, call, pol, got, owed, asked>>
+            /\ UNCHANGED <<next, call, pol, got, owed, asked, nn>>
 Read == \E n \in 0..Len(stream) : ReadN(n)
-Next == Send \/ Fetch \/ Timeout \/ Read \/ \E i \in 1..N : Reply(i)
+Next == Send \/ Fetch \/ Timeout \/ Read \/ Notify \/ \E i \in 1..N : Reply(i)
 Spec == Init /\ [][Next]_vars /\ WF_vars(Next)
 
 TypeOK == call \in 0..N /\ next \in 1..(N+1)
@@ -106,4 +115,9 @@ NoLoss == (Settled /\ call # 0 /\ call \in owed) => store[call] # <<>>
 Done == <>(next = N + 1 /\ call = 0)
 \* the store never holds anything but whole server messages under their own ids
 StoreExact == \A i \in 1..N : store[i] # <<>> => store[i] = M(i)
+\* not part of any listed property: every notification sent in full is filed, whole, in order.  Holds without echo;
+\* with an echoing transport a notification that is still (partly) in the buffer when the echo of the next request
+\* arrives is dropped with that echo (TLC counterexample; the harness checks that the code agrees with the model about
+\* which notifications survive)
+NotifExact == Settled => store[0] = [k \in 1..nn |-> NM(k)]
 =============================================================================
